@@ -14,6 +14,9 @@ mod c01;
 mod c02;
 mod c07;
 mod c13;
+mod c19;
+// C19: shadow copy of anstream's private / sealed parts, at the crate root (see shadow.rs)
+include!("shadow.rs");
 
 pub fn unhex(s: &str) -> Vec<u8> {
     if s == "-" {
@@ -43,11 +46,19 @@ fn run_case(line: &str) -> String {
         .or_else(|| c02::dispatch(kind, &f))
         .or_else(|| c07::dispatch(kind, &f))
         .or_else(|| c13::dispatch(kind, &f))
+        .or_else(|| c19::dispatch(kind, &f))
         .unwrap_or_else(|| format!("UNKNOWN-KIND {kind}"))
 }
 
 fn main() {
     let args: Vec<String> = std::env::args().collect();
+    // hidden modes: C19 stress runs (sanity test of the runtime assumptions)
+    if args.len() == 6 && args[1] == "--c19-stress" {
+        std::process::exit(c19::stress(&args[2..]));
+    }
+    if args.len() == 5 && args[1] == "--c19-regstress" {
+        std::process::exit(c19::regstress(&args[2..]));
+    }
     if args.len() != 3 {
         eprintln!("usage: hcore <case-file> <out-file>");
         std::process::exit(2);
